@@ -306,6 +306,10 @@ pub fn gen_header(kind: Kind, r: &mut Rng, p_random_state: bool, cb: u8, bad_arg
                 7 => r.range(5, 16) as usize,
                 _ => r.range(17, 64) as usize,
             }];
+            if r.chance(1, 40) {
+                // widths beyond 2^16: the power-of-two rounding of the sketch has more to do
+                h.sizes = vec![*r.pick(&[65_537usize, 131_073, 196_609, (1 << 20) + 1, 70_001, 65_536])];
+            }
             h.samples = r.range(1, 40) as usize;
             h.ratios = vec![*r.pick(&[1e-9, 0.01, 0.01, 0.5, 0.99])];
             if bad_args && r.chance(1, 6) {
@@ -493,7 +497,8 @@ fn gen_cache_op(kind: Kind, h: &Header, r: &mut Rng, kg: &mut KeyGen, table: &[(
         Rehash => op.list = r.below(nlists) as u8,
         Resize => {
             let cap = h.sizes[0] as u64;
-            op.n = match r.below(10) {
+            op.n = match r.below(11) {
+                10 if r.chance(1, 3) => -(r.range(1, 3) as i64),
                 0 => 0,
                 1 => 1,
                 2 => cap as i64,
@@ -543,7 +548,14 @@ fn gen_tlfu_op(h: &Header, r: &mut Rng, hashes: &[u64]) -> Op {
     let mut op = Op::new(code);
     let key = |r: &mut Rng| r.below(h.universe as u64) as u32 + 1;
     match code {
-        TInc | TEst | TContains => op.v = *r.pick(hashes),
+        TInc | TEst | TContains => {
+            op.v = *r.pick(hashes);
+            if r.chance(1, 6) {
+                // boundary hash: resolved at execution time to the hash that indexes the last
+                // counter of sketch row fam-1 (needs the row seeds, which the clock decides)
+                op.fam = r.range(1, 4) as u8;
+            }
+        }
         TIncKey | TEstKey | TContainsKey => op.k = key(r),
         TIncKeys => op.xs = (0..r.range(0, 4)).map(|_| key(r) as u64).collect(),
         TIncHashes => op.xs = (0..r.range(0, 4)).map(|_| *r.pick(hashes)).collect(),
@@ -692,6 +704,20 @@ pub fn gen(prop: &str, verif_seed: u64, run_index: u64, tier: Tier) -> Trace {
     // differential second executions compare two instances: every hasher must be owned
     let differential = pl.env_pair || pl.flip_owned_pair || pl.twin_observer_pair;
     let mut h = gen_header(kind, &mut rc, pl.random_state && !differential, pl.cb, pl.bad_ctor_args, tier);
+    let mut conversion_run = false;
+    if prop == "C17" && rc.chance(1, 16) {
+        // conversions (FromIterator / From<collection>) go through RandomState-keyed tables:
+        // their result must still be a function of the input alone
+        h = gen_header(Kind::Lru, &mut rc, false, 0, false, tier);
+        h.random_state = true;
+        h.key_type = "TK".into();
+        h.with_cb = false;
+        h.ctor = rc.range(1, 8) as u8;
+        h.sizes[0] = rc.range(2, 7) as usize;
+        h.universe = h.sizes[0] as u32 + 3;
+        conversion_run = true;
+    }
+    let kind = h.kind;
     if prop == "C18" {
         // the fault-injection world needs the allocator's exact liveness table: tracked keys only
         h.random_state = false;
@@ -722,6 +748,7 @@ pub fn gen(prop: &str, verif_seed: u64, run_index: u64, tier: Tier) -> Trace {
         1..=5 => rs.below(max_len / 2 + 1),
         _ => rs.below(max_len + 1),
     } as usize;
+    let len = if kind == Kind::Tlfu && h.sizes[0] > 4096 { len.min(10) } else { len };
     let mut events: Vec<Event> = Vec::new();
     let mut next_val = 1u64;
     match kind {
@@ -806,7 +833,9 @@ pub fn gen(prop: &str, verif_seed: u64, run_index: u64, tier: Tier) -> Trace {
         t.probe_all = false;
     }
     // differential second execution
-    if pl.env_pair && controlled {
+    if conversion_run {
+        // single execution; the order-stability check is part of the construction
+    } else if pl.env_pair && controlled {
         let hashers = (0..t.header.hashers.len()).map(|_| gen_hasher(&mut re)).collect();
         t.env_b = Some(EnvB {
             hashers,
